@@ -838,7 +838,9 @@ func main() {
 		return
 	}
 	r := rec.NewRand(o.Seed)
-	thorough := o.Tier == "thorough"
+	// the thorough tier runs 4 consecutive seeds: the (seed-independent) large exhaustive parts are
+	// done by exactly one of them
+	thorough := o.Tier == "thorough" && o.Seed%4 == 1
 
 	// ---- exhaustive parts ----
 	// all 0-, 1-byte inputs; all 2-byte inputs in the thorough tier (a stride of them otherwise)
